@@ -15,6 +15,18 @@ from . import c02
 
 LEVEL = "other"
 
+# C01's statement is the composition reader -> optimizer -> {generator, VM} -> parser-state combinators. The rules of
+# this module decide the middle (each backend's translation of each construct against reference terms); the contracts
+# the other stages must keep for the composition to mean the documented semantics are decided by the modules below and
+# re-run here, so that a change to parser_state.rs / position.rs / the optimizer / the reader is reported under C01 too.
+DEPENDS = [
+    ("C03", {"why": "the reference terms bottom out in the ParserState combinators: all-or-nothing sequence/look-ahead, "
+                    "rule token emission, primitives that do not move on failure, memchr arms = basic search"}),
+    ("C05", {"why": "both backends run the optimized rules: each pass must preserve the matched language and the stack "
+                    "restoration points"}),
+    ("C07", {"why": "the grammar text must be read into the AST it denotes before either backend sees it"}),
+]
+
 MANIFEST = {
     "technique": "table agreement between the documented built-in table and both back-ends' dispatch tables; "
                  "comparison of the VM's per-operator combinator terms (typed HIR) with reference terms written from "
@@ -136,15 +148,6 @@ def run(rep, tier):
         builtins(rep, ctx, sfx)
         dispatch(rep, ctx, sfx)
         skipguard(rep, ctx, sfx)
-    # the matching primitives the translations bottom out in (shared with C03): the memchr arms of
-    # skip_until must agree with the basic search, and primitives must not move on failure
-    from . import c03
-    pest = facts.facts("default").crate("pest")
-    c03.skiparms(rep, pest, "")
-    c03.nomove(rep, pest, "")
-    for rr in rep.rules:
-        if rr.name.startswith("C03."):
-            rr.name = "C01.PRIM-" + rr.name[4:]
 
 
 def builtins(rep, ctx, sfx):
